@@ -111,6 +111,10 @@ def _gen_subsets(rng):
         out.append({'kind': 'frac', 'seed': rng.below(1 << 30), 'p': rng.choice([0.2, 0.5, 0.8])})
     # third entry: a slice object (only handed to raw file handles, several of which have explicit slice handling)
     out.append({'kind': 'slice', 'start': rng.choice([0, 0, 1]), 'step': rng.choice([1, 2, 3])})
+    # fourth and fifth (raw handles of C18 only; C02 quantifies over strictly increasing subsets): an index list that is not sorted
+    # (interior permuted with the smallest index first and the largest last, or fully shuffled), one with a repeated index
+    out.append({'kind': 'unsorted', 'seed': rng.below(1 << 30), 'p': rng.choice([0.3, 0.6]), 'ends_fixed': rng.chance(0.5)})
+    out.append({'kind': 'repeat', 'seed': rng.below(1 << 30), 'p': rng.choice([0.3, 0.6])})
     return out
 
 
@@ -125,7 +129,16 @@ def resolve_subset(sub, n_atoms):
     idx = np.nonzero(mask)[0]
     if len(idx) == 0:
         idx = np.array([r.randint(n_atoms)])
-    return idx.astype(int)
+    idx = idx.astype(int)
+    if sub.get('kind') == 'unsorted' and len(idx) >= 3:
+        if sub.get('ends_fixed'):
+            idx = np.concatenate([idx[:1], r.permutation(idx[1:-1]), idx[-1:]])
+        else:
+            idx = r.permutation(idx)
+    elif sub.get('kind') == 'repeat':
+        k = int(r.randint(len(idx)))
+        idx = np.insert(idx, k, idx[k])
+    return idx
 
 
 def _gen_handle_op(rng, n_handles, nsub):
@@ -258,7 +271,7 @@ def generate(check, rng, tier, run_index):
             if rng.chance(0.7):
                 o['ai'] = rng.below(2)
         else:
-            o = _gen_handle_op(rng, len(handles), len(subsets))
+            o = _gen_handle_op(rng, len(handles), min(3, len(subsets)))
             o['raw'] = True
         if k in ('iter_new', 'load', 'load_frame', 'load_list') and rng.chance(0.2):
             o['pathobj'] = True                         # the file is named by a pathlib.Path object
@@ -583,9 +596,11 @@ def step_handle(res, check, world, hc, op, stepno, judge=True):
                 res.log.append('%d c%d %s not-offered' % (stepno, op['c'], kind))
                 return
             except Exception as e:
-                if as_slice and isinstance(e, (TypeError, ValueError, IndexError)) and pre < N:
-                    # this reader does not take a slice object for atom_indices (documented as array_like): not offered
-                    res.skip('%s.read(atom_indices=slice)' % fmt)
+                odd_ai = ai is not None and world.subsets[op['ai']].get('kind') in ('unsorted', 'repeat')
+                if (as_slice or odd_ai) and isinstance(e, (TypeError, ValueError, IndexError)) and pre < N:
+                    # this reader does not take a slice object for atom_indices (documented as array_like), or its storage layer
+                    # refuses unsorted / repeated selections (PyTables): not offered
+                    res.skip('%s.read(atom_indices=%s)' % (fmt, 'slice' if as_slice else world.subsets[op['ai']].get('kind')))
                     res.log.append('%d c%d %s slice-ai not-offered' % (stepno, op['c'], kind))
                     hc.close()
                     return
@@ -621,6 +636,9 @@ def step_handle(res, check, world, hc, op, stepno, judge=True):
                 viol(bad[0], bad[1], (',over' if over else '') + (',as_traj' if as_traj else ''))
         elif kind in ('seek', 'rseek', 'eseek'):
             target = op['k'] % N
+            to_end = kind == 'rseek' and op['k'] % 11 == 0
+            if to_end:
+                target = N      # a relative seek to the position a read-to-end leaves: offered by most readers, refused by some
             try:
                 if kind == 'seek':
                     hc.h.seek(target)
@@ -632,6 +650,16 @@ def step_handle(res, check, world, hc, op, stepno, judge=True):
                 res.skip('%s.%s' % (fmt, kind))
                 res.log.append('%d c%d %s not-offered' % (stepno, op['c'], kind))
                 return
+            except Exception as e:
+                if to_end:
+                    # "seeking beyond the end is not supported" read strictly (XTC/TRR): not offered; the handle is reopened
+                    res.skip('%s.seek_to_len' % fmt)
+                    res.log.append('%d c%d rseek-to-len refused %s' % (stepno, op['c'], type(e).__name__))
+                    hc.close()
+                    return
+                raise
+            if to_end:
+                res.probe('relative_seek_to_len')
             hc.pos = target
             hc.lenwarm = True
             if hc.eof:
